@@ -186,10 +186,12 @@ def header_tie(ctx, cd):
     ctx.cov["traces_validated_against_impl"] += len(vec) - bad
 
 
-def gen_parse(rng, nseq, maxll, maxml):
-    """a random valid parse (literals, [(ll, ml, ofv)]) and the bytes it stands for; repeat-offset codes included"""
-    rep = [1, 4, 8]
-    out = bytearray()
+def gen_parse(rng, nseq, maxll, maxml, out=None, rep=None):
+    """a random valid parse (literals, [(ll, ml, ofv)]) and the bytes it stands for; repeat-offset codes included.
+    With out/rep given (history so far, repeat offsets), continues from there and returns (lits, qs, new out, new rep)."""
+    cont = out is not None
+    rep = list(rep) if rep else [1, 4, 8]
+    out = bytearray(out) if cont else bytearray()
     lits = bytearray()
     qs = []
     for _ in range(nseq):
@@ -225,7 +227,79 @@ def gen_parse(rng, nseq, maxll, maxml):
     tail = bytes(rng.getrandbits(8) for _ in range(rng.choice([0, 0, 1, rng.randint(0, maxll)])))
     lits += tail
     out += tail
+    if cont:
+        return bytes(lits), qs, out, rep
     return bytes(lits), qs, bytes(out)
+
+
+def lz_blocks_tie(ctx, cd):
+    """multi-block frames built by the LZ compressor model (theorem C01_lz_compressor_model_lossless): raw / RLE / compressed blocks in
+    any order, histories and repeat offsets carried across blocks; libzstd and R must decode them to the parsed bytes"""
+    rng = random.Random(ctx.seed + 57)
+    cases = []
+    for i in range(40 if ctx.quick else 400):
+        out, rep, spec = bytearray(), [1, 4, 8], []
+        for _ in range(rng.randint(1, 6)):
+            k = rng.choice(["L", "L", "L", "R", "E"])
+            if k == "R":
+                dd = rng.randbytes(rng.choice([0, 1, 5, 100, 3000]))
+                out += dd
+                spec.append("R" + dd.hex())
+            elif k == "E":
+                v, n = rng.randrange(256), rng.choice([0, 1, 2, 50, 4000])
+                out += bytes([v]) * n
+                spec.append("E%d.%d" % (v, n))
+            else:
+                lits, qs, out, rep = gen_parse(rng, rng.choice([1, 2, 5, 40, 200]), rng.choice([5, 40, 600]), rng.choice([10, 80, 3000]), out=out, rep=rep)
+                spec.append("L%s.%s" % (lits.hex(), ";".join("%d/%d/%d" % q for q in qs)))
+        if len(out) > 120000:
+            continue
+        cases.append(dict(id="y%d" % i, spec="_".join(spec), out=bytes(out), wlog=rng.choice([17, 19, 22]), ck=rng.getrandbits(1), nb=len(spec),
+                          kinds="".join(x[0] for x in spec)))
+    mres = cd.model([(c["id"], "lzblocks=%d:%d" % (c["wlog"], c["ck"]), c["spec"].encode(), b"") for c in cases]) if False else None
+    # the spec is not hex: bypass codec.hx by writing the driver lines directly
+    lines = ["%s lzblocks=%d:%d %s -" % (c["id"], c["wlog"], c["ck"], c["spec"]) for c in cases]
+    outm, errs = codec._run_chunks(cd.r_exe(), lines, core.NCPU, 1800)
+    dec, ok, skipped = [], 0, 0
+    for c in cases:
+        t = outm.get(c["id"], "ERR missing").split(" ")
+        if t[0] != "OK":
+            if len(t) > 1 and t[1] == "invalidparse":
+                skipped += 1      # e.g. the compressed form of a block exceeds Block_Maximum_Size: outside the theorem
+                continue
+            ctx.violation(dict(kind="model-run", result=" ".join(t)[:200]), what="the LZ compressor model failed to run on a generated block list: %s" % " ".join(t)[:100], no_input=True)
+            continue
+        c["content"] = bytes.fromhex(t[1]) if t[1] != "-" else b""
+        c["frame"] = bytes.fromhex(t[2])
+        if c["content"] != c["out"]:
+            ctx.violation(dict(kind="lz-semantics", spec=c["spec"][:4000]), what="content computed by the model for a block list disagrees with the independent Python executor", no_input=True)
+            continue
+        dec.append("D %s dctx - - %s %d" % (c["id"], codec.hx(c["frame"]), len(c["out"]) + 16))
+        dec.append("D %s|s stream:7:5 - - %s %d" % (c["id"], codec.hx(c["frame"]), len(c["out"]) + 16))
+    dout, derrs = cd.impl(dec)
+    rres = cd.model([(c["id"], "", None, c["frame"]) for c in cases if "frame" in c])
+    for c in cases:
+        if "frame" not in c:
+            continue
+        rep_ = dict(kind="model-built-multiblock-frame", frame_hex=c["frame"].hex()[:100000], expected_hex=c["out"].hex()[:100000], blocks=c["kinds"])
+        good = True
+        for key in (c["id"], c["id"] + "|s"):
+            d = codec.parse_ok(dout.get(key, "ERR missing"))
+            if d[0] != "OK" or d[1] != c["out"]:
+                good = False
+                ctx.violation(dict(rep_, decoder="libzstd " + ("streaming" if key.endswith("|s") else "one-shot"), result=str(d[:2])[:200]),
+                              what="libzstd does not decode a %d-block frame (%s) built by the proved LZ compressor model to the parsed bytes: %s"
+                                   % (c["nb"], c["kinds"], d[1] if d[0] == "ERR" else "content differs"))
+        r = rres.get(c["id"], ("ERR", "missing", -1))
+        if r[0] != "OK" or r[1] != c["out"]:
+            good = False
+            ctx.violation(dict(rep_, decoder="R", result=str(r[:2])[:200]), what="R does not decode the model-built multi-block frame to the parsed bytes (contradicts C01_lz_compressor_model_lossless)", no_input=True)
+        if good:
+            ok += 1
+            ctx.count(("lzblocks", c["kinds"][:4], c["ck"]), nontrivial=True)
+    ctx.cov["model_built_multiblock_frames_decoded_by_impl"] = ok
+    ctx.notes["model_built_multiblock_skipped_outside_theorem"] = skipped
+    ctx.cov["traces_validated_against_impl"] += ok
 
 
 def lz_tie(ctx, cd):
@@ -339,6 +413,7 @@ def run(ctx):
     if not ctx.replay_file:
         header_tie(ctx, cd)
         lz_tie(ctx, cd)
+        lz_blocks_tie(ctx, cd)
         wide_sequences(ctx)
     ctx.notes["block_histogram"] = hist
     ctx.notes["input_kinds"] = {k: sum(1 for c in cases if c["kind"] == k) for k in set(c["kind"] for c in cases)}
